@@ -2040,6 +2040,9 @@ func (r *Runtime) wrapReflectFunc(value reflect.Value) func(FunctionCall) Value 
 			in[i] = v
 		}
 
+		if value.IsNil() {
+			panic(r.NewTypeError("Cannot call a nil Go function"))
+		}
 		out := value.Call(in)
 		if len(out) == 0 {
 			return _undefined
